@@ -69,8 +69,7 @@ Proof.
 Qed.
 
 (* ---- sum / mean ---- *)
-Hypothesis SC : sum_closed o.
-Hypothesis sub_add_cancel : forall a b, is_null o a = false -> is_null o b = false -> sub o (add o a b) a = b.
+Hypothesis cancel : forall old q, is_null o old = false -> sub o (add o old (window_sum o q)) old = window_sum o q.
 
 Theorem rolling_sum_is_spec gk vals ng w mp mask wm :
   (0 < w)%nat -> length vals = length gk -> wf_mask (length gk) mask ->
@@ -96,7 +95,7 @@ Proof.
       destruct (sel_at mask i); cbn [negb]; [|reflexivity].
       set (l := earlier gk vals mask (get (-1) gk i) i).
       change (sfold (sum_step o w mpv wm) _ (map (fun x => (x, true)) l)) with (run_sum o w mpv wm l).
-      rewrite (sum_output o L SC sub_add_cancel w mpv wm l _ Hw). cbv zeta.
+      rewrite (sum_output o L cancel w mpv wm l _ Hw). cbv zeta.
       rewrite lastn_same. unfold window_nn, window_sum.
       set (q := nonnull o (RowSpec.lastn w (l ++ [get (null o) vals i]))).
       destruct (mpv <=? Z.of_nat (length q)) eqn:E; [apply Z.leb_le in E | apply Z.leb_gt in E].
